@@ -282,6 +282,10 @@ def spec_decode(msg, want_types=True):
                 if b > 1:
                     raise SpecDecodeError("bool")
                 return bool(b)
+            if t == "principal":
+                if r.byte() != 1:
+                    raise SpecDecodeError("opaque reference")
+                return ("principal", bytes(r.take(r.leb())))
             raise SpecDecodeError("value of type " + t)
         e = table[t]
         if e[0] == "opt":
